@@ -23,6 +23,15 @@ def run(chk):
             chk.traces_impl += 1
             calls = Counter((c[0], c[1]) for c in ep["calls"])
             executed = Counter((n, row[0]) for n in names for row in cl.impl_rows(ep, n))
+            # from the property text, independent of what the record says: no step function application twice, none outside the episode's own graph
+            verts = {n: {v[0] for v in r["raw"][e]["verts"][n] if v[0] >= 0} for n in names} if r.get("raw") else None
+            dup = [k for k, v in calls.items() if v > 1]
+            if dup:
+                chk.violation("compiled-step-executed-more-than-once", f"episode {e}: {dup[0][0]}[{dup[0][1]}] executed {calls[dup[0]]} times "
+                              f"(rollout over the full compiled horizon of {r.get('max_steps')} partitions)", case)
+            elif verts is not None:
+                ghost = [k for k in calls if k[1] not in verts.get(k[0], set())]
+                if ghost: chk.violation("compiled-unscheduled-step-executed", f"episode {e}: {ghost[0][0]}[{ghost[0][1]}] executed but is not a vertex of the episode's graph", case)
             if calls != executed:
                 extra = [k for k in calls if calls[k] != executed.get(k, 0)] + [k for k in executed if k not in calls]
                 k0 = extra[0]
